@@ -7,7 +7,8 @@ Inductive pscope :=
 | ScGivenParts      (* `file_path.parts` of the path exactly as it reached lint_file *)
 | ScProjectRelParts (* parts of the path re-rooted at the project root (the shape of proposed_fixes/C09-exclusion-inside-project.diff) *)
 | ScGivenStr        (* `str(file_path)` of the path as given *)
-| ScGivenName.      (* `file_path.name` / last component *)
+| ScGivenName       (* `file_path.name` / last component *)
+| ScResolvedStr.    (* `str(file_path.resolve())`: the absolute, normalised spelling *)
 
 (* how a per-linter ignore list is applied to a path (one constructor per idiom found in the source) *)
 Inductive ikind :=
